@@ -9,7 +9,7 @@ also continues outward past broad handlers: this is what makes "restore on every
 `finally` (or a bare/BaseException handler that re-establishes the state).
 """
 import ast
-from .model import FUNC, src, callee_name, parents, walk_local
+from .model import FUNC, src, callee_name, parents, walk_local, pos
 
 
 class Exit:
@@ -375,7 +375,7 @@ def _loop_local(loop):
 def _stores_between(func, names, lo, hi):
     for n in walk_local(func):
         if isinstance(n, ast.Name) and isinstance(n.ctx, (ast.Store, ast.Del)) and n.id in names:
-            if lo < (n.lineno, n.col_offset) < hi:
+            if lo < pos(n) < hi:
                 return True
     return False
 
@@ -432,8 +432,8 @@ def path_conditions(node, func=None, check_kill=True):
         kept = []
         for t, pol in conds:
             nm = {n.id for n in ast.walk(t) if isinstance(n, ast.Name)}
-            lo = (getattr(t, "end_lineno", t.lineno), getattr(t, "end_col_offset", 0))
-            hi = (node.lineno, node.col_offset)
+            lo = max((pos(x_) for x_ in ast.walk(t) if hasattr(x_, "_pos")), default=pos(t))
+            hi = pos(node)
             if lo < hi and _stores_between(func, nm, lo, hi):
                 continue
             kept.append((t, pol))
@@ -584,7 +584,7 @@ def return_alts(fnode):
         # single-exit spelling: `result = A ... result = B ... return result` -> one alternative per assignment of the result variable
         if isinstance(v, ast.Name):
             defs = [a for a in walk_local(fnode) if isinstance(a, ast.Assign) and len(a.targets) == 1 and isinstance(a.targets[0], ast.Name) and a.targets[0].id == v.id]
-            if len(defs) >= 2 and all((d.lineno, d.col_offset) < (r.lineno, r.col_offset) for d in defs):
+            if len(defs) >= 2 and all(pos(d) < pos(r) for d in defs):
                 for d in defs:
                     df = list(base)
                     for t, pol in path_conditions(d, fnode):
